@@ -298,6 +298,72 @@ message Old { string a = 1; }
 	return out
 }
 
+// genBreakingShared writes an (against, current) pair in which the only TARGET a/v1/a.proto and
+// the import-only files a/v1/b.proto, a/v1/c.proto belong to the SAME package and directory:
+// incompatible changes inside the import files, a message that moves from the target into an
+// import file (annotation located in a current import, against location in a previous target)
+// and one that moves the other way (located in a target, against location in a previous import).
+func genBreakingShared(r *hx.Rand) *breakingSources {
+	out := &breakingSources{old: map[string][]byte{}, new: map[string][]byte{}, importOnly: map[string]bool{"a/v1/b.proto": true, "a/v1/c.proto": true}}
+	pick := func(a, b string) string {
+		if r.Chance(3, 4) {
+			return b
+		}
+		return a
+	}
+	out.old["a/v1/a.proto"] = []byte(`syntax = "proto3";
+package a.v1;
+import "a/v1/b.proto";
+import "a/v1/c.proto";
+message M {
+  string name = 1;
+  B b = 2;
+  C c = 3;
+}
+message Moved { string x = 1; }
+service S {
+  rpc Get(M) returns (B);
+}
+`)
+	out.new["a/v1/a.proto"] = []byte(`syntax = "proto3";
+package a.v1;
+import "a/v1/b.proto";
+import "a/v1/c.proto";
+message M {
+  ` + pick("string name = 1;", "bytes name = 1;") + `
+  B b = 2;
+  C c = 3;
+}
+message Back { ` + pick("int32 y = 1;", "int64 y = 1;") + ` }
+service S {
+  rpc Get(M) returns (B);
+}
+`)
+	out.old["a/v1/b.proto"] = []byte(`syntax = "proto3";
+package a.v1;
+message B { string k = 1; string v = 2; }
+message BGone { string k = 1; }
+message Back { int32 y = 1; }
+enum BE { BE_UNSPECIFIED = 0; BE_ONE = 1; }
+`)
+	out.new["a/v1/b.proto"] = []byte(`syntax = "proto3";
+package a.v1;
+message B { ` + pick("string k = 1;", "int32 k = 1;") + ` ` + pick("string v = 2;", "") + ` }
+` + pick("message BGone { string k = 1; }", "") + `
+message Moved { ` + pick("string x = 1;", "int32 x = 1;") + ` }
+enum BE { BE_UNSPECIFIED = 0; ` + pick("BE_ONE = 1;", "") + ` }
+`)
+	out.old["a/v1/c.proto"] = []byte(`syntax = "proto3";
+package a.v1;
+message C { string id = 1; }
+`)
+	out.new["a/v1/c.proto"] = []byte(`syntax = "proto3";
+package a.v1;
+message C { ` + pick("string id = 1;", "int64 id = 1;") + ` }
+`)
+	return out
+}
+
 func fmtDirective(d directive) string {
 	return fmt.Sprintf("%s:%d-%d:%q", d.file, d.from, d.to, d.text)
 }
